@@ -6,6 +6,7 @@
 //
 ///////////////////////////////////////////////////////////////////////////////
 #define CPPCMS_SOURCE
+#include <booster/verif_hooks.h>
 #include <cppcms/session_interface.h>
 #include <cppcms/session_pool.h>
 #include <cppcms/session_api.h>
@@ -363,12 +364,14 @@ void session_interface::save()
 
 	bool force_update=false;
 	if(data_==data_copy_ && !new_session_) {
+			CPPCMS_VERIF_PROBE("session.save_skipped_fixed_unchanged");
 		if(how_==fixed) {
 			return;
 		}
 		if(how_==renew || how_==browser) {
 			int64_t delta=now + timeout_val_ - timeout_in_;
 			if(delta < timeout_val_ * 0.1) {// Less then 10% -- no renew need
+				CPPCMS_VERIF_PROBE("session.renewal_skipped_below_10_percent");
 				return;
 			}
 		}
